@@ -249,6 +249,14 @@ def update_entry_for_path(path, e, hashes=None, expected_dev=None,
     if hashes is None:
         hashes = list(e.checksums)
 
+    # 0. a name that is not valid UTF-8 cannot be written to a Manifest
+    try:
+        os.fsdecode(path).encode('utf8')
+    except UnicodeEncodeError:
+        raise ManifestInvalidPath(
+            os.fsdecode(path).encode('utf8', 'backslashreplace').decode(),
+            ('__encoding__', 'non-UTF-8'))
+
     with contextlib.closing(get_file_metadata(path, hashes)) as g:
         # 1. verify whether the file existed in the first place
         exists = next(g)
